@@ -60,6 +60,18 @@ def main(argv):
                 ctx.undecided(rid, "-", f"internal error {type(e).__name__}: {e}")
                 if os.environ.get("VERIF_DEBUG"):
                     traceback.print_exc()
+    if tier == "thorough" and not ctx.errors:
+        try:
+            from .sweep import sweep
+
+            ctx.sweep = sweep(ctx, mod)
+            from . import repo as repomod
+
+            repomod.set_repo(repo)
+        except Exception as e:
+            ctx.note(f"sensitivity sweep not run: {type(e).__name__}: {e}")
+            if os.environ.get("VERIF_DEBUG"):
+                traceback.print_exc()
     return ctx.finish(getattr(mod, "META", {}))
 
 
